@@ -337,7 +337,9 @@ def mark_case(prog, res=None):
     if any(int(nd.relevant) != 0 for nd in m.subgraph.nodes):
         return viol(prog, "samples are flagged relevant before any prediction", "SupervisedOPF.fit: relevant flags not reset")
     batches = prog["batches"]
-    if not pre:
+    if prog.get("passes"):
+        batches = []
+    elif not pre:
         qs = batches[0]
         far = [1e200] + [0.0] * (len(qs[0]) - 1)      # every distance to it overflows to +inf
         batches = [[q] for q in qs[:6]] + [qs[:2], qs, [far], [qs[0], far]]
@@ -396,6 +398,70 @@ def mark_case(prog, res=None):
                         "minimisers %s) and their ancestors are e.g. %s" % (batch, sorted(flagged), args,
                                                                              sorted(exp)),
                         "SupervisedOPF.predict: " + sym)
+    # two prediction passes on ONE fitted object: the second pass must flag its conquerors with all
+    # their ancestors in the forest recorded after fit (flags of the first pass may stay or be cleared)
+    if prog.get("passes"):
+        pairs = [tuple(prog["batches"])]
+    elif pre:
+        pairs = [(batches[0], batches[-1])]
+    else:
+        qs = prog["batches"][0]
+        pairs = [([qs[0]], [qs[-2]]), (qs[:2], qs[2:4]), ([qs[-2]], qs[:3])]
+    for b1, b2 in pairs:
+        m, _ = sup.fit_program(prog, fresh=True)
+        try:
+            ds = []
+            for batch in (b1, b2):
+                if pre:
+                    W = np.array(prog["W"], dtype=float)
+                    tidx = [int(i) for i in prog["I_train"]]
+                    m.predict(np.zeros((len(batch), 1)), I_val=np.array(batch, dtype=int))
+                    ds.append([[float(W[t][q]) for t in tidx] for q in batch])
+                else:
+                    m.predict(np.array(batch, dtype=float))
+                    ds.append([[float(m.distance_fn(nd.features.copy(), np.array(q, dtype=float)))
+                                for nd in m.subgraph.nodes] for q in batch])
+        except Horizon:
+            raise
+        except Exception as ex:
+            return viol(dict(prog, batches=[b1, b2], passes=True), "second predict raised %r" % (ex,),
+                        "SupervisedOPF.predict raised")
+        flagged = frozenset(i for i, nd in enumerate(m.subgraph.nodes) if int(nd.relevant) == 1)
+        a1 = [F.acceptable_labels(costs, plab, d)[2] for d in ds[0]]
+        a2 = [F.acceptable_labels(costs, plab, d)[2] for d in ds[1]]
+        nchoices = 1
+        for a in a1 + a2:
+            nchoices *= len(a)
+        ok = nchoices > 4096
+        if not ok:
+            for c2 in itertools.product(*a2):
+                need = set()
+                for t in c2:
+                    need |= closure(nodes, t)
+                if not need <= flagged:
+                    continue
+                for c1 in itertools.product(*a1):
+                    may = set(need)
+                    for t in c1:
+                        may |= closure(nodes, t)
+                    if flagged <= may:
+                        ok = True
+                        break
+                if ok:
+                    break
+        if res is not None:
+            res.transitions += 2
+            res.evaluations += 1
+            res.nontrivial += 1
+        if not ok:
+            exp = set()
+            for a in a2:
+                exp |= closure(nodes, a[0])
+            return viol(dict(prog, batches=[b1, b2], passes=True),
+                        "after predicting %s and then %s on one object the flagged samples are %s; the conquerors "
+                        "of the second pass (exhaustive minimisers %s) and their ancestors are e.g. %s"
+                        % (b1, b2, sorted(flagged), a2, sorted(exp)),
+                        "SupervisedOPF.predict: second pass does not flag conquerors+ancestors")
     return None
 
 
